@@ -2,7 +2,7 @@
 use std::{cell::Cell, fmt, future::poll_fn, rc::Rc, task::Context, task::Poll};
 
 use ntex_service::{Service, ServiceCtx};
-use ntex_util::{future::join, task::LocalWaker};
+use ntex_util::task::LocalWaker;
 
 /// Trait for types that could be sized
 pub trait SizedRequest {
@@ -59,7 +59,15 @@ where
         if self.publish.get() || self.count.is_available() {
             ctx.ready(&self.service).await
         } else {
-            join(self.count.available(), ctx.ready(&self.service)).await.1
+            // readiness of the inner service is checked again after every completed
+            // request: a service that buffers requests releases them from its readiness
+            // check, and a buffered request may be the one that holds the limit
+            loop {
+                ctx.ready(&self.service).await?;
+                if self.count.available().await {
+                    return Ok(());
+                }
+            }
         }
     }
 
@@ -93,6 +101,7 @@ struct CounterInner {
     cur_cap: Cell<u16>,
     max_size: usize,
     cur_size: Cell<usize>,
+    completed: Cell<usize>,
     task: LocalWaker,
 }
 
@@ -103,6 +112,7 @@ impl Counter {
             max_size,
             cur_cap: Cell::new(0),
             cur_size: Cell::new(0),
+            completed: Cell::new(0),
             task: LocalWaker::new(),
         }))
     }
@@ -116,15 +126,21 @@ impl Counter {
             && (self.0.max_size == 0 || self.0.cur_size.get() <= self.0.max_size)
     }
 
-    async fn available(&self) {
+    /// Wait until limits allow next request or some request completes
+    ///
+    /// Returns `true` if next request is allowed
+    async fn available(&self) -> bool {
+        let completed = self.0.completed.get();
         poll_fn(|cx| {
             if self.0.available(cx) {
-                Poll::Ready(())
+                Poll::Ready(true)
+            } else if self.0.completed.get() != completed {
+                Poll::Ready(false)
             } else {
                 Poll::Pending
             }
         })
-        .await;
+        .await
     }
 }
 
@@ -165,7 +181,10 @@ impl CounterInner {
         let new_size = cur_size - (size as usize);
         self.cur_size.set(new_size);
 
-        if num == self.max_cap || (cur_size > self.max_size && new_size <= self.max_size) {
+        self.completed.set(self.completed.get().wrapping_add(1));
+
+        // every completed request wakes readiness check while limits are exceeded
+        if num == self.max_cap || cur_size > self.max_size {
             self.task.wake();
         }
     }
